@@ -436,6 +436,17 @@ def _truediv(a, b):
     a = z3.simplify(a)
     if _is_num(b):
         if z3.is_true(z3.simplify(b == 0)):
+            # the denominator is identically zero on this path (e.g. `maxp - pline[0]` on the arm where
+            # the maximum IS pline[0]).  numpy would give inf/nan silently, plain floats would raise:
+            # either way it is the same safety obligation `den != 0` as for a symbolic denominator,
+            # here identically false -- recorded as such, and the path ends (assert-then-assume).
+            try:
+                c = _ctx()
+            except Exception:
+                c = None
+            if c is not None and c.spec_mode == 0:
+                c.safety.append(dict(kind="div", cond=z3.BoolVal(False), pc=list(c.pc), spec=False))
+                raise PathPruned("division by a denominator that is identically zero on this path")
             raise ZeroDivisionError("float division by zero")
         return Sym(z3.simplify(a / b))
     return Sym(_ctx().divide(a, b))
